@@ -104,7 +104,8 @@ class DiscoverSubcircuits(UsedQubitIndicesVisitor):
         indices = defaultdict(set)
 
         count = len(self.subcircuits)
-        had_started = self.current is not None
+        # The subcircuit (if any) that is open when this block is entered
+        entry = self.current
 
         # XXX: using a trace restriction here is untested
         for n, stmt in self.trace_statements(block.statements):
@@ -112,7 +113,12 @@ class DiscoverSubcircuits(UsedQubitIndicesVisitor):
                 indices, self.visit(stmt, context=context), disjoint=block.parallel
             )
 
-        if had_started and (reps > 1) and (len(self.subcircuits) != count):
+        if (
+            entry is not None
+            and (reps > 1)
+            and any(sc is entry for sc in self.subcircuits[count:])
+        ):
+            # A repeated loop body closes a subcircuit that was opened before it
             raise JaqalError("measure_all -> prepare_all not supported in loops")
 
         return indices
